@@ -52,14 +52,15 @@ func (win Window) New(col, row, cols, rows int) Window {
 	switch {
 	case cols < 0:
 		newWin.Width = w - col
-	case cols+col > w:
+	case cols > w-col:
+		// (not cols+col > w, which overflows for very large sizes)
 		newWin.Width = w - col
 	}
 
 	switch {
 	case rows < 0:
 		newWin.Height = h - row
-	case rows+row > h:
+	case rows > h-row:
 		newWin.Height = h - row
 	}
 	return newWin
